@@ -40,7 +40,10 @@ func initPosition() {
 		"==",
 		func(_ *Thread, args []value.Value) (value.Value, value.Value) {
 			self := (*value.Position)(args[0].Pointer())
-			other := (*value.Position)(args[1].Pointer())
+			other, ok := args[1].SafeAsReference().(*value.Position)
+			if !ok {
+				return value.False.ToValue(), value.Undefined
+			}
 			return value.BoolVal(self.Equal(other)), value.Undefined
 		},
 		DefWithParameters(1),
